@@ -1,6 +1,8 @@
 import GrafeoModel.Driver.Proto
 import GrafeoModel.Driver.C15
 import GrafeoModel.Driver.Tx
+import GrafeoModel.Driver.Rdf
+import GrafeoModel.Driver.Wal
 
 /-!
 `gdriver`: reads op lines `<stream> <op> <arg>*` on stdin, writes one line per op:
@@ -11,6 +13,7 @@ open Grafeo Grafeo.Proto
 
 structure DState where
   tx : DriverTx.St := {}
+  rdf : DriverRdf.St := {}
 
 def dispatch (st : DState) (line : String) : DState × String :=
   let toks := (line.trimAscii.toString.splitOn " ").filter (· ≠ "")
@@ -21,9 +24,17 @@ def dispatch (st : DState) (line : String) : DState × String :=
       match DriverC15.handle args with
       | some o => (st, o.render)
       | none => (st, "bad-op")
+    else if stream == "wal" then
+      match DriverWal.handle args with
+      | some o => (st, o.render)
+      | none => (st, "bad-op")
     else if stream == "tx" then
       match DriverTx.handle st.tx args with
       | some (t', o) => ({ st with tx := t' }, o.render)
+      | none => (st, "bad-op")
+    else if stream == "rdf" then
+      match DriverRdf.handle st.rdf args with
+      | some (t', o) => ({ st with rdf := t' }, o.render)
       | none => (st, "bad-op")
     else (st, "bad-op")
 
